@@ -297,7 +297,7 @@ func TestC23(t *testing.T) {
 				rec.Sample("nest", describeNestHistory(hist))
 			}
 		case fam < 8:
-			hist := storgen.GenMapHistory(src, storgen.MapGenConfig{MaxExecs: 20, MaxOps: 5})
+			hist := storgen.GenMapHistory(src, storgen.MapGenConfig{MaxExecs: 20, MaxOps: 5, AvoidNilBorrowAnyResource: true})
 			var facts mapFacts
 			maxSlabs := 0
 			for _, eng := range host.Engines {
